@@ -453,6 +453,108 @@ example :
         some (old, [Str.ofString "export PATH='/my prod/bin:/bin'", Str.ofString "unset GONE"], 0) := by
   decide
 
+/-! ## the csh dialect (text level; spec from the manual, no csh binary) -/
+
+/-- **csh reads back what the emitter wrote, word by word.**  For every value over the alphabet that holds no newline:
+the word the emitter writes after `setenv NAME ` (single-quoted iff it holds a blank or one of `< > | & ; ( )`) is read
+by csh as exactly that value. -/
+theorem C05_csh_word_roundtrip (v : Str) (hv : InAlphabet v) (hnl : ∀ c ∈ v, c ≠ 10) : cshWord (emitVal v) = some v := by
+  rcases emitVal_alpha hv with h | ⟨h, hsafe⟩
+  · rw [h]
+    have hrev : (v ++ [39]).reverse = 39 :: v.reverse := by simp
+    have hall : (v.all fun c => c != 39 && c != 10 && c != 33) = true := by
+      apply List.all_eq_true.mpr
+      intro c hc
+      have h39 := alpha_no_sq hv c hc
+      have h10 := hnl c hc
+      have h33 : c ≠ 33 := by
+        rcases hv c hc with h1 | h1
+        · simp only [isSafe, Str.isAlnum, Str.isAlpha, Str.isUpper, Str.isLower, Str.isDigit, Bool.or_eq_true,
+            Bool.and_eq_true, decide_eq_true_eq, beq_iff_eq] at h1
+          omega
+        · simp only [isShMeta, Bool.or_eq_true, beq_iff_eq] at h1
+          omega
+      simp [h39, h10, h33]
+    simp [cshWord, hrev, hall]
+  · rw [h]
+    cases v with
+    | nil => rfl
+    | cons c r =>
+      have hc : c ≠ 39 := (safe_facts (hsafe c (by simp))).1
+      have hall : ((c :: r).all isSafe) = true := List.all_eq_true.mpr hsafe
+      simp only [cshWord]
+      split
+      · rename_i heq; cases heq
+      · rename_i heq; cases heq; exact absurd rfl hc
+      · simp [hall]
+
+/-- **The whole csh command list** (`setenv` for every changed or new variable, `unsetenv` for every removed one) takes
+the caller's environment to the computed one, as csh reads it — for written values over the alphabet without a
+newline.  (Same command list as for sh: only the rendering differs.) -/
+theorem C05_csh_roundtrip (old new : Env)
+    (hold : ∀ p ∈ old, isIdent p.1 = true) (hnew : ∀ p ∈ new, isIdent p.1 = true)
+    (hdict : (new.map (·.1)).Nodup)
+    (halpha : ∀ p ∈ new, old.get p.1 ≠ some p.2 → InAlphabet p.2 ∧ ∀ c ∈ p.2, c ≠ 10)
+    (hprot : ∀ k, isProtected k = true → old.has k = true → new.has k = true) :
+    ∃ e, cshApplyAll (emitVarsOn { shell := .csh } (OldEnv.ofEnv old) new) old = some e ∧ SameEnv e new := by
+  have hsame : emitVarsOn { shell := .csh } (OldEnv.ofEnv old) new = emitVarsOn {} (OldEnv.ofEnv old) new := by
+    have h1 : setCmd? { shell := .csh } (OldEnv.ofEnv old) = setCmd? {} (OldEnv.ofEnv old) := by
+      funext p; simp [setCmd?, hidden]
+    have h2 : unsetCmd? { shell := .csh } new = unsetCmd? {} new := by
+      funext p; simp [unsetCmd?, hidden]
+    simp only [emitVarsOn, h1, h2]
+  rw [hsame]
+  have hgood : ∀ c ∈ emitVarsOn {} (OldEnv.ofEnv old) new, ∀ e, cshApply e c = some (c.apply e) := by
+    intro c hc e
+    simp only [emitVarsOn, List.mem_append, List.mem_filterMap] at hc
+    rcases hc with ⟨p, hp, hpc⟩ | ⟨p, hp, hpc⟩
+    · simp only [setCmd?] at hpc
+      split at hpc; · cases hpc
+      rename_i hl
+      split at hpc; · cases hpc
+      cases hpc
+      have ha := halpha p hp (by
+        intro hg; apply hl; rw [lookup_ofEnv, hg]; simp)
+      simp [cshApply, hnew p hp, C05_csh_word_roundtrip p.2 ha.1 ha.2, Cmd.apply]
+    · simp only [unsetCmd?] at hpc
+      split at hpc; · cases hpc
+      split at hpc; · cases hpc
+      split at hpc; · cases hpc
+      cases hpc
+      have : p.1 ∈ old.map (·.1) := by
+        have := (tracks_ofEnv old).1
+        rw [← this]; exact List.mem_map.mpr ⟨p, hp, rfl⟩
+      obtain ⟨q, hq, hqk⟩ := List.mem_map.mp this
+      have hid : isIdent p.1 = true := by rw [← hqk]; exact hold q hq
+      simp [cshApply, hid, Cmd.apply]
+  have hfold : ∀ (l : List Cmd) (e : Env), (∀ c ∈ l, ∀ e, cshApply e c = some (c.apply e)) →
+      cshApplyAll l e = some (applyAll l e) := by
+    intro l
+    induction l with
+    | nil => intro e _; rfl
+    | cons c r ih =>
+      intro e h
+      simp only [cshApplyAll, List.foldlM_cons, h c (by simp) e, Option.bind_eq_bind, Option.bind_some, applyAll_cons]
+      exact ih _ (fun d hd => h d (by simp [hd]))
+  exact ⟨_, hfold _ old hgood, emitVars_apply (OldEnv.ofEnv old) old new (tracks_ofEnv old) hdict hprot⟩
+
+/-- **csh cannot take a newline inside a quoted word (witness against the emission, per the manual):** for the value
+`a b<newline>c` the emitter writes the same quoted word as for sh; sh reads it back, csh does not. -/
+theorem C05_csh_newline_witness :
+    let v := Str.ofString "a b\nc"
+    emitVal v = Str.ofString "'a b\nc'" ∧ cshWord (emitVal v) = none ∧
+      shEval [] (Str.ofString "export K=" ++ emitVal v) = some [(Str.ofString "K", v)] := by
+  decide
+
+/-- Non-vacuity: a path with a blank and parentheses, an empty value, a removed variable, through csh's eyes. -/
+example :
+    let old : Env := [(Str.ofString "PATH", Str.ofString "/bin"), (Str.ofString "GONE", Str.ofString "1")]
+    let new : Env := [(Str.ofString "PATH", Str.ofString "/my prod (v1)/bin:/bin"), (Str.ofString "E", [])]
+    emit { shell := .csh } (OldEnv.ofEnv old) new [] [] =
+        some [Str.ofString "setenv PATH '/my prod (v1)/bin:/bin'", Str.ofString "setenv E ", Str.ofString "unsetenv GONE"] ∧
+      cshApplyAll (emitVarsOn { shell := .csh } (OldEnv.ofEnv old) new) old = some new := by
+  decide
+
 /-! ## the command line (`setupcmd.EupsSetup.run` behind `bin/eups_setup`) -/
 
 /-- **What the wrapper can print.**  Whatever the options, the file system facts and the outcome of the inner
